@@ -49,10 +49,10 @@ pub fn sequence_origin() -> u32 {
 
 /// Sets the values [sequence_origin()] cycles through (restarting the cycle)
 pub fn set_sequence_origins(origins: [u32; ORIGINS]) {
-    let mut i = 0;
-    while i < ORIGINS {
-        SEQUENCE_ORIGINS[i].store(origins[i], SeqCst);
-        i += 1;
-    }
+    // (unrolled: model checkers would otherwise need an unwinding bound for this loop)
+    SEQUENCE_ORIGINS[0].store(origins[0], SeqCst);
+    SEQUENCE_ORIGINS[1].store(origins[1], SeqCst);
+    SEQUENCE_ORIGINS[2].store(origins[2], SeqCst);
+    SEQUENCE_ORIGINS[3].store(origins[3], SeqCst);
     NEXT_ORIGIN.store(0, SeqCst);
 }
